@@ -331,6 +331,12 @@ func apDirect(fs afero.Fs, obs *apObs, hang time.Duration) {
 	touch := func() { progress.Store(time.Now().UnixNano()) }
 	touch()
 
+	var reserved, count, eofs, unknown, cancelledAt atomic.Int64
+	if c.Stop == 0 {
+		// cut = -1: cancelled before Run starts
+		cancelledAt.Store(time.Now().UnixNano())
+		cancel()
+	}
 	var runErr error
 	var runAt atomic.Int64
 	runDone := make(chan struct{})
@@ -351,7 +357,6 @@ func apDirect(fs afero.Fs, obs *apObs, hang time.Duration) {
 		close(runDone)
 	}()
 
-	var reserved, count, eofs, unknown, cancelledAt atomic.Int64
 	hist := make([]atomic.Int64, n)
 	var wg sync.WaitGroup
 	for i := 0; i < c.NC; i++ {
